@@ -106,7 +106,7 @@ func TestC14(t *testing.T) {
 	defer r.Close(t)
 	r.Rule("grid: ordered pairs of absolute URLs from scheme x host x path x query x fragment variants, both checkScheme values, " +
 		"IRI.Equals compared with the reference normaliser (lower-case scheme/host, cleaned lower-case path, query multiset, no fragment); " +
-		"random: URL + mutated presentation; strings: reflexivity and symmetry; lists: IRIs.Contains vs exists-Equals. " +
+		"hosts: every ordered pair of 24 host spellings (names, IPv4, bracketed IPv6, ports) x 2 schemes x 4 paths x 2 queries; random: URL + mutated presentation; strings: reflexivity and symmetry; lists: IRIs.Contains vs exists-Equals. " +
 		"non-trivial = the two IRIs differ textually and are either equivalent or differ in exactly one component; distinct by (a,b,checkScheme)")
 	r.Assume("net/url parsing is trusted (shared by library and reference)")
 	r.Assume("query strings in one letter case (case of queries is outside the property's domain)")
@@ -170,9 +170,63 @@ func TestC14(t *testing.T) {
 		r.Note("grid_size", len(grid))
 	}
 
+	// ---- hosts: every pair of host spellings (names, IPv4, bracketed IPv6, with and without ports) on a small path/query set ----
+	if r.WantLayer("hosts", true) {
+		hostSpellings := []string{"example.com", "example.com:8080", "example.com:80", "example.com:8081", "example.org", "a.example.com", "127.0.0.1", "127.0.0.1:3000", "127.0.0.2", "127.0.0.1:3001",
+			"[::1]", "[::2]", "[::1]:8080", "[::1]:9090", "[::2]:8080", "[2001:db8::1]", "[2001:db8::2]", "[2001:DB8::1]", "[2001:db8::1]:443", "[2001:db9::1]", "[fe80::1%25eth0]", "xn--mnchen-3ya.de", "localhost", "localhost:8080"}
+		var hg []gridIRI
+		for si, sch := range []string{"https", "http"} {
+			for hi, h := range hostSpellings {
+				for pi, p := range []string{"", "/a", "/a/", "/b"} {
+					for qi, q := range []string{"", "?x=1"} {
+						str := sch + "://" + h + p + q
+						hg = append(hg, gridIRI{str, si, hi, pi, qi, 0, oracle.NormIRI(str), false})
+					}
+				}
+			}
+		}
+		cells := 0
+		for i, a := range hg {
+			for j, b := range hg {
+				for _, cs := range []bool{false, true} {
+					cell := fmt.Sprintf("%s %s %v", a.s, b.s, cs)
+					if !r.WantCell(cell) {
+						continue
+					}
+					cells++
+					want := c14Equiv(a.key, b.key, cs)
+					var got bool
+					pi := ev.Safe(func() { got = ap.IRI(a.s).Equals(ap.IRI(b.s), cs) })
+					cls, n := c14DiffClass(a, b)
+					nt := a.s != b.s && (want || n == 1)
+					r.Case(cell, nt, "hosts diff="+cls)
+					if nt && (i*len(hg)+j)%4999 == 0 {
+						r.Sample(cell, map[string]interface{}{"layer": "hosts", "a": a.s, "b": b.s, "checkScheme": cs, "expected_equal": want, "got": got})
+					}
+					if pi != nil {
+						r.Report("hosts", cell, "iri panic@"+pi.Frame, pi.Value, map[string]interface{}{"a": a.s, "b": b.s, "checkScheme": cs})
+						continue
+					}
+					if got != want {
+						w := "ne"
+						if want {
+							w = "eq"
+						}
+						key := fmt.Sprintf("iri hosts diff=%s want=%s", cls, w)
+						r.Report("hosts", cell, key, fmt.Sprintf("IRI(%q).Equals(%q, %v) = %v, reference says %v", a.s, b.s, cs, got, want),
+							map[string]interface{}{"a": a.s, "b": b.s, "checkScheme": cs, "expected_equal": want, "got": got})
+					}
+				}
+			}
+		}
+		r.Cells(len(hg)*len(hg)*2, cells)
+		r.Exhaustive("hosts", !r.Replaying())
+		r.Note("hosts_grid_size", len(hg))
+	}
+
 	// ---- random URLs beyond the grid ----
 	seg := rapid.SampledFrom([]string{"a", "A", "b", "users", "Users", "~jdoe", "x.y", "1", "inbox", "%41", "%20", "ü", "a%2Fb", "https:", "remote.example"})
-	hostG := rapid.SampledFrom([]string{"example.com", "Example.COM", "a.b.example.org", "localhost", "127.0.0.1", "[::1]", "xn--bcher-kva.example", "example.com:443", "example.com:80", "h"})
+	hostG := rapid.SampledFrom([]string{"example.com", "Example.COM", "a.b.example.org", "localhost", "127.0.0.1", "[::1]", "[::2]", "[::1]:8080", "[2001:db8::1]", "[2001:db8::2]", "xn--bcher-kva.example", "example.com:443", "example.com:80", "h"})
 	qkey := rapid.SampledFrom([]string{"x", "y", "page", "max", "a b"})
 	qval := rapid.SampledFrom([]string{"", "1", "2", "true", "a b", "%2F", "ü", "https://remote.example/actor", "http://x.example/?a=b"})
 	type urlParts struct {
@@ -230,7 +284,9 @@ func TestC14(t *testing.T) {
 			case "host":
 				q.host = hostG.Draw(t, "h2")
 			case "port":
-				if !strings.Contains(q.host, ":") {
+				if i := strings.LastIndex(q.host, ":"); i > strings.LastIndex(q.host, "]") {
+					q.host = q.host[:i] + ":8181"
+				} else {
 					q.host += ":8080"
 				}
 			case "trailing":
